@@ -23,11 +23,11 @@ PATTERNS = [
 # f0 is shared by o0 and o0b (reads/writes only); clear/reset -- the accounting paths that save
 # without a load -- go to f1, which has a single object (lost updates between several objects
 # on one file are C06's subject, not the accounting's)
-SLOTS = ["write-o0", "write-long-o0", "write-o1", "write-o0b", "read-o0", "read-o0b", "clear-o1", "reset-o1", "outside-o1", "read-o1", "nested-write-o0"]
+SLOTS = ["write-o0", "write-long-o0", "write-o1", "write-o0b", "read-o0", "read-o0b", "clear-o1", "reset-o1", "outside-o1", "iofault-o1", "read-o1", "nested-write-o0"]
 
 
 def nslots():
-    return 11 if hlib.TIER == "thorough" else 9
+    return 12 if hlib.TIER == "thorough" else 10
 
 
 def parts():
@@ -131,6 +131,9 @@ def _run(env, fam, which, pattern, sel, args):
         if state["outside"] and isinstance(e, (BufferedError, MetadataError)):
             state["errored"] = True
             return True
+        if state.get("iofault") and isinstance(e, OSError):
+            state["errored"] = True
+            return True
         return False
 
     toks = pattern.split()
@@ -198,6 +201,12 @@ def _run(env, fam, which, pattern, sel, args):
                     env.write_doc(w.file_of[on], {"out": val} if which == "dict" else [val, "out"])
                     state["outside"] = True
                     continue
+                if act == "iofault":
+                    # the next write to this object's file fails with an I/O error (once)
+                    env.fs.fault_write_of = w.file_of[on]
+                    state["outside"] = True  # from here on a flush may legitimately report a problem with f1
+                    state["iofault"] = True
+                    continue
                 try:
                     bad_read = _slot(w, which, act, on, o, ref, val, state)
                 except hlib.Crash:
@@ -256,8 +265,8 @@ def smoke(tier):
     out = []
     for part in range(20):
         for pi in range(3):
-            for s in range(0, 9, 2):
-                out.append(("prog", (pi, s, (s + 3) % 9, (s + 6) % 9, 0), part, 20))
+            for s in range(0, 10, 2):
+                out.append(("prog", (pi, s, (s + 3) % 10, (s + 6) % 10, 0), part, 20))
     return out
 
 
